@@ -39,7 +39,7 @@ type Harness struct {
 }
 
 func (h *Harness) explanation() string {
-	return "Round-3 pass (miss3.go): operator-undo workloads (Chain.UndoLastBlock called directly, as the text-UI command `undo` and NewChainExt's -undo loop do: while a paced snapshot waits after its first chunk at the beginning of its walk, while none is active, at start-up between two clean shutdowns), stale-sibling workloads (blocks stored aside because they are not higher than the tip are on disk at every crash point and at clean shutdowns inside the history; every capture re-opened in client AND library mode; the library-mode process does 3 further clean Close + NewChainExt cycles before anything is fed; the closed directories are re-opened by fresh processes in both modes), the node process holds <datadir>/.lock through sys.LockDatabaseDir / UnlockDatabaseDir exactly like the client and every client-mode fresh process starts with the real LockDatabaseDir; snapshot-file tie (every UTXO.db / UTXO.old of every capture parsed independently: record count == header, txid set == replay of the header's block), library tie (oracle op libopen == library-mode fresh process) and lock tie (oracle op lock) with Model/PersistLib.lean whose parameters are regenerated from the source (go/cmd/gen_c07). Added after the audit: (i) truncations of UTXO.db after a clean close (inside the 48-byte header, right after it, inside and at the end of the record area; with and without UTXO.old) re-opened by a fresh process under a 20 s watchdog - NewUnspentDb must fall back to UTXO.old / start from genesis and the recovery loop must converge (fix eab07278: it hung with an intact header and a short record area); compared with the model's tearDb + restartFrom (oracle op torn, theorem torn_snapshot_reopens); a fall-back onto a snapshot of the abandoned branch is the known finding's window. (ii) bulk workload threshold-flush (bulk.go): 1024 blocks queued without an Idle so that BlockDB.BlockAdd flushes synchronously INSIDE Chain.CommitBlock (asserted: 1024 index records written between chain.commit:before-blockadd and :after-blockadd); crash points inside and after the flush are SAMPLED (not exhaustive), predicate only; thorough adds deep-recovery (2600 blocks ahead of the snapshot: recovery without undo data below target-2560). (iii) the known finding undo-file-keyed-by-height is assigned only with evidence (model predicts the observed state and raised its ghost flag there, or an undo file of a block that must be undone names another block); a child that reports no state must be a panic of the model too; the model's uninterrupted run must end in the real final state with ghost flag 0 (oracle op final). Wide workloads (wide.go; judged by the property predicate on the real code; only the data-file roll-over workloads are ALSO compared with a Lean model - rolltie.go: the (data file, fpos, blen) of every index record after the uninterrupted run and at every second-crash capture == oracle op `roll`, Model/PersistRoll.lean, theorem dat_rollover_sound): (1) failed-reorg-then-idle: a side branch whose first block spends a non-existent output overtakes the tip while all its blocks are still in the block-write queue; the reorganisation fails, the queued blocks are dropped from the index, further valid blocks are queued behind them, then Idle + snapshot + Close; every vhook point is a crash point and the cleanly closed directory is re-opened by a fresh process (clean-restart identity: same tip, same UTXO dump, recovery loop is a no-op). (2) save-race: back-to-back snapshots under a pinned schedule - the file goroutine of snapshot S1 is held at a vhook point, a block is accepted, Idle starts S2 which parks behind S1's file, a further block is submitted from its own goroutine; if its commit reaches utxo.commit:after-commit while S2 is pending it is held there until S2 has walked the maps, then everything is released (histogram wide:save-race:window-reached / window-not-reached; with the code as written the commit waits for the pending snapshot and the window is not reached - a trivial case); every point is a crash point, in particular the renamed UTXO.db of S2. (3) data-file roll-over: BlockDBOpts.MaxDataFileSize = 520 bytes (generated: 340..900) in every process, so that a new data file starts every 1-3 blocks; Idle + complete snapshot after every block (second variant: clean Close + NewChainExt inside the history after every block); single crash at every point, and two-crash cases from EVERY block boundary (index record written / snapshot renamed = the directory of a clean shutdown): restart, feed every block without a snapshot, second crash at each index write, third process judged (histogram wide:rollover:first-restart-with-exactly-one-block-in-the-newest-data-file). In all fresh-process reports every block of the active chain is read back from the store and must hash to its index entry and equal the bytes submitted. Second-crash cases (crash at a blockdb.write:dat-written / idx-written point or with the index cut by one record -> fresh process recovers like the client, is fed every block with snapshots disabled, flushes -> second crash at each idx-written point and after Idle; thorough: at every point for the first data-written hit of each scripted workload -> third fresh process re-opens and is judged by the same predicate; not compared with the model). The known finding undo-file-keyed-by-height is only assigned when the captured directory really holds an undo/<h> file naming another block than the re-opened chain's block at h (a missing undo file or any other failure off-branch is reported under its own key). Exhaustive over the crash points of each workload: the harness installs a vhook callback that copies the data directory at EVERY vhook.Point hit (all point names x all hit counts) of the workloads {extend, save, abort-by-new-block (save paused after its first 64 KiB chunk, aborted by CommitBlockTxs, later one hurried), reorg-after-save, reorg-save-extend, reorg-before-any-save, seeded generated histories (canonical schedule, compared with the model), free-running variants, and an adversarial schedule holding block writes back while a snapshot is being written}; each copy is re-opened by a fresh process (client mode: NewChainExt(DoNotRescan) + do_the_blocks/LocalAcceptBlock loop; library mode: NewChainExt default) and must give: no panic, a tip the node knew, UTXO dump == independent replay of that tip's chain, final (tip, dump) after feeding the remaining blocks == the uninterrupted run, and the same again after a clean close + re-open. Plus every record-boundary (and mid-record) truncation of blockchain.new and prefix truncations of blockchain.dat after a clean close. The Lean model (Model/Persist.lean) is tied by (a) point-name sequence == labels of the model's effect list, (b) recovered/final (tip, coin set) at every crash point == model's recover(apply(take k effects))."
+	return "Round-4 pass (miss4.go; workloads of several kinds are in flight at a time: the fresh processes of one workload run while the next one is driven in-process, reports are judged in workload order): flag-rewrite workloads (the flag byte of an index record that is already ON DISK is rewritten: a side branch is stored aside, flushed by Chain.Idle and only then overtakes the tip - its records become trusted while the reorganisation applies them, or one of its blocks spends an output that does not exist and the records of the rest of the branch are flagged invalid; crossed with one / several data files (MaxDataFileSize 340..700), 1-3 further blocks stored behind the rewritten records, a clean shutdown + restart inside the history in library or client mode, 1-3 blocks appended by the restarted node, a second restart; every point a crash point) and close-relation workloads (a clean shutdown while the tip is another block of the SAME height as the block of UTXO.db - blocks undone by the operator, as many others accepted - or one higher on another branch - one more block, or a reorganisation while Idle may not save -, followed by a restart inside the history); after EVERY clean shutdown inside a history of any workload (ops restart = library mode, crestart = client mode incl. the recovery loop) the restarted node must be in exactly the state before the shutdown (key clean-restart-differs). Ties with Model/PersistIdx.lean (facts flagRewriteSource / invalidRecordAdvances / closeSaveGuard regenerated from setBlockFlag / LoadBlockIndex / UnspentDB.Close): index tie (between consecutive captures of every workload the index file changes by appended records and gained flag bits only == oracle op idx), load-positions tie (what the REAL LoadBlockIndex computed in every client-mode fresh process - append position, ipos and data file of every record, read through lib/chain/verif_export_c07.go - == the positions of the records in the captured file == the model's load), close tie (block and height before every clean shutdown inside a close-relation history and after the restart == oracle op closeg). Round-3 pass (miss3.go): operator-undo workloads (Chain.UndoLastBlock called directly, as the text-UI command `undo` and NewChainExt's -undo loop do: while a paced snapshot waits after its first chunk at the beginning of its walk, while none is active, at start-up between two clean shutdowns), stale-sibling workloads (blocks stored aside because they are not higher than the tip are on disk at every crash point and at clean shutdowns inside the history; every capture re-opened in client AND library mode; the library-mode process does 3 further clean Close + NewChainExt cycles before anything is fed; the closed directories are re-opened by fresh processes in both modes), the node process holds <datadir>/.lock through sys.LockDatabaseDir / UnlockDatabaseDir exactly like the client and every client-mode fresh process starts with the real LockDatabaseDir; snapshot-file tie (every UTXO.db / UTXO.old of every capture parsed independently: record count == header, txid set == replay of the header's block), library tie (oracle op libopen == library-mode fresh process) and lock tie (oracle op lock) with Model/PersistLib.lean whose parameters are regenerated from the source (go/cmd/gen_c07). Added after the audit: (i) truncations of UTXO.db after a clean close (inside the 48-byte header, right after it, inside and at the end of the record area; with and without UTXO.old) re-opened by a fresh process under a 20 s watchdog - NewUnspentDb must fall back to UTXO.old / start from genesis and the recovery loop must converge (fix eab07278: it hung with an intact header and a short record area); compared with the model's tearDb + restartFrom (oracle op torn, theorem torn_snapshot_reopens); a fall-back onto a snapshot of the abandoned branch is the known finding's window. (ii) bulk workload threshold-flush (bulk.go): 1024 blocks queued without an Idle so that BlockDB.BlockAdd flushes synchronously INSIDE Chain.CommitBlock (asserted: 1024 index records written between chain.commit:before-blockadd and :after-blockadd); crash points inside and after the flush are SAMPLED (not exhaustive), predicate only; thorough adds deep-recovery (2600 blocks ahead of the snapshot: recovery without undo data below target-2560). (iii) the known finding undo-file-keyed-by-height is assigned only with evidence (model predicts the observed state and raised its ghost flag there, or an undo file of a block that must be undone names another block); a child that reports no state must be a panic of the model too; the model's uninterrupted run must end in the real final state with ghost flag 0 (oracle op final). Wide workloads (wide.go; judged by the property predicate on the real code; only the data-file roll-over workloads are ALSO compared with a Lean model - rolltie.go: the (data file, fpos, blen) of every index record after the uninterrupted run and at every second-crash capture == oracle op `roll`, Model/PersistRoll.lean, theorem dat_rollover_sound): (1) failed-reorg-then-idle: a side branch whose first block spends a non-existent output overtakes the tip while all its blocks are still in the block-write queue; the reorganisation fails, the queued blocks are dropped from the index, further valid blocks are queued behind them, then Idle + snapshot + Close; every vhook point is a crash point and the cleanly closed directory is re-opened by a fresh process (clean-restart identity: same tip, same UTXO dump, recovery loop is a no-op). (2) save-race: back-to-back snapshots under a pinned schedule - the file goroutine of snapshot S1 is held at a vhook point, a block is accepted, Idle starts S2 which parks behind S1's file, a further block is submitted from its own goroutine; if its commit reaches utxo.commit:after-commit while S2 is pending it is held there until S2 has walked the maps, then everything is released (histogram wide:save-race:window-reached / window-not-reached; with the code as written the commit waits for the pending snapshot and the window is not reached - a trivial case); every point is a crash point, in particular the renamed UTXO.db of S2. (3) data-file roll-over: BlockDBOpts.MaxDataFileSize = 520 bytes (generated: 340..900) in every process, so that a new data file starts every 1-3 blocks; Idle + complete snapshot after every block (second variant: clean Close + NewChainExt inside the history after every block); single crash at every point, and two-crash cases from EVERY block boundary (index record written / snapshot renamed = the directory of a clean shutdown): restart, feed every block without a snapshot, second crash at each index write, third process judged (histogram wide:rollover:first-restart-with-exactly-one-block-in-the-newest-data-file). In all fresh-process reports every block of the active chain is read back from the store and must hash to its index entry and equal the bytes submitted. Second-crash cases (crash at a blockdb.write:dat-written / idx-written point or with the index cut by one record -> fresh process recovers like the client, is fed every block with snapshots disabled, flushes -> second crash at each idx-written point and after Idle; thorough: at every point for the first data-written hit of each scripted workload -> third fresh process re-opens and is judged by the same predicate; not compared with the model). The known finding undo-file-keyed-by-height is only assigned when the captured directory really holds an undo/<h> file naming another block than the re-opened chain's block at h (a missing undo file or any other failure off-branch is reported under its own key). Exhaustive over the crash points of each workload: the harness installs a vhook callback that copies the data directory at EVERY vhook.Point hit (all point names x all hit counts) of the workloads {extend, save, abort-by-new-block (save paused after its first 64 KiB chunk, aborted by CommitBlockTxs, later one hurried), reorg-after-save, reorg-save-extend, reorg-before-any-save, seeded generated histories (canonical schedule, compared with the model), free-running variants, and an adversarial schedule holding block writes back while a snapshot is being written}; each copy is re-opened by a fresh process (client mode: NewChainExt(DoNotRescan) + do_the_blocks/LocalAcceptBlock loop; library mode: NewChainExt default) and must give: no panic, a tip the node knew, UTXO dump == independent replay of that tip's chain, final (tip, dump) after feeding the remaining blocks == the uninterrupted run, and the same again after a clean close + re-open. Plus every record-boundary (and mid-record) truncation of blockchain.new and prefix truncations of blockchain.dat after a clean close. The Lean model (Model/Persist.lean) is tied by (a) point-name sequence == labels of the model's effect list, (b) recovered/final (tip, coin set) at every crash point == model's recover(apply(take k effects))."
 }
 
 func (h *Harness) run() {
@@ -585,7 +585,14 @@ func (h *Harness) posTie(w Workload, c *s2case, sc SecondCap) {
 	n0 := len(c.idx0) / 136
 	for i := 0; i < len(idx)/136; i++ {
 		b := idx[i*136 : i*136+136]
-		if b[0]&0x01 == 0 && false {
+		if i < n0 && string(b[1:]) != string(c.idx0[i*136+1:i*136+136]) {
+			r.Hit("pos-tie:skipped")
+			return
+		}
+		if b[0]&0x02 != 0 {
+			// a record flagged invalid is not in the node's index: LoadBlockIndex does not count its data when it looks for the end of
+			// the indexed data (the bytes are a hole / an orphaned tail that later blocks may overwrite)
+			r.Hit("pos-tie:invalid-record-left-out")
 			continue
 		}
 		key := hex.EncodeToString(b[56:136])
